@@ -8,6 +8,7 @@ into MANIFEST.json / evidence.  Units are groups of contract entries (see contra
 """
 
 PROPS = {}
+from . import hooks as _h
 
 
 def prop(pid, **kw):
@@ -34,6 +35,7 @@ UNIT_DEPS = {
     'prim_mul': ['mul', 'conv'],
     'round': ['core', 'pow10', 'types', 'context'],
     'config': ['types'],
+    'roots': ['core', 'context', 'config', 'cmp'],
     'inverse': ['core', 'context', 'config'],
     'prim_div': ['div', 'derived', 'conv', 'inverse'],
     'prec': ['round', 'digits', 'context', 'add', 'core'],
@@ -59,7 +61,8 @@ def closure(units):
 
 FIX_COMMITS = ['6dbd058 fix: with_prec rounds negative values symmetrically (C07)',
                'c977df5 fix: DivAssign<integer> panics on a zero divisor (C08)',
-               'beb88f2 fix: equality no longer overflows when adding the carry (C02)']
+               'beb88f2 fix: equality no longer overflows when adding the carry (C02)',
+               '49ca308 fix: inverse_with_context exchanges Floor and Ceiling for negative values (C12)']
 NOTES = ('Contract-based deductive verification (Verus) of functions re-extracted from /repo on every run; '
          'see DESIGN.md.  exit 2 = undecided because of the machinery (never a violation).')
 
@@ -70,7 +73,7 @@ NOT_APPLICABLE = {
     'C13': 'statement about the real function e^x to one ulp; contracts here are integer-only and the Taylor loop has no termination measure (DESIGN.md section 7)',
     'C17': 'feature-gated code generic over foreign serde traits and strings; no contract within reach (DESIGN.md section 7)',
 }
-for _p in ['C05', 'C10', 'C11', 'C12', 'C14', 'C16', 'C19']:
+for _p in ['C05', 'C14', 'C16', 'C19']:
     NOT_APPLICABLE[_p] = _WIP
 
 _NOTE_COMMON = ('Assumed: num-bigint/num-traits/num-integer contracts (spec/shim_base.rs, vf/shimgen.py), std specs, '
@@ -134,6 +137,42 @@ prop('C09', units=['rem', 'scale', 'core', 'pow10'], level='proof',
                  'smaller than |b| in magnitude, zero or of the sign of a, and independent of the sign of b'),
      level_note=_NOTE_COMMON,
      technique=_TECH)
+
+_X42 = '1.000000000000000000000000000000000000000001'
+prop('C10', units=['roots', 'core', 'context', 'config'], level='proof',
+     hooks=[_h.replay_hook([
+         dict(args=['sqrt', '4' + '0' * 210]), dict(args=['sqrt_ctx', _X42, '5', 'Up']), dict(args=['sqrt_ctx', _X42, '20', 'Up']),
+         dict(args=['sqrt_ctx', '2', '10', 'Down']), dict(args=['sqrt_ctx', '2', '7', 'Up']), dict(args=['sqrt_ctx', '152.2756', '4', 'HalfEven']),
+         dict(args=['sqrt', '1e-30']), dict(args=['sqrt_ctx', '99999999', '3', 'Floor'])])],
+     level_text=('PARTIAL. Verus proves the entry points only: sqrt() is sqrt_with_context at the configured default context (symbolic), zero and one are returned '
+                 'unchanged, a negative input gives None, the reference forms give None / zero / the root of the magnitude, the absolute-value form takes the root of |x| and '
+                 'the copy-sign form returns exactly that root with the sign of x. The numeric core impl_sqrt is NOT under contract (its result is an uninterpreted function), so '
+                 'correct rounding of the root is not decided; three genuine accuracy defects are replayed with an integer oracle and listed as known findings'),
+     level_note=_NOTE_COMMON + ' A change inside impl_sqrt is not seen by this check except through the replayed inputs.',
+     technique=_TECH + '; known findings replayed on the real crate with integer oracles')
+
+prop('C11', units=['roots', 'core', 'context', 'config'], level='proof',
+     hooks=[_h.replay_hook([
+         dict(args=['cbrt_ctx', _X42, '5', 'Up']),
+         dict(args=['cbrt_ctx', '-27', '5', 'Floor']), dict(args=['cbrt_ctx', '2', '12', 'Down']), dict(args=['cbrt_ctx', '-2', '12', 'Ceiling']),
+         dict(args=['cbrt_ctx', '1e-7', '6', 'HalfUp']), dict(args=['cbrt_ctx', '123456.789', '9', 'Up'])])],
+     level_text=('PARTIAL. Verus proves the entry points only: cbrt() is cbrt_with_context at the configured default context, zero and one are returned unchanged, everything else is '
+                 'handed to the numeric core with its sign. The core impl_cbrt_int_scale / impl_cbrt_uint_scale is NOT under contract; one genuine defect (inexact integer root treated '
+                 'as exact when the trimmed digits are zero) is replayed with an integer oracle and listed as a known finding'),
+     level_note=_NOTE_COMMON + ' A change inside the cube-root core is not seen by this check except through the replayed inputs.',
+     technique=_TECH + '; known finding replayed on the real crate with an integer oracle')
+
+prop('C12', units=['inverse', 'prim_div', 'core', 'context', 'config'], level='proof',
+     hooks=[_h.replay_hook([
+         dict(args=['inverse_mirror', '3e-9', '100']), dict(args=['inverse_mirror', '7', '5']),
+         dict(args=['inverse_ctx', '7.8125e16', '3', 'Down']), dict(args=['inverse_ctx', '8', '5', 'Up']), dict(args=['inverse_ctx', '-3', '4', 'Floor']),
+         dict(args=['inverse_ctx', '3', '1', 'Down']), dict(args=['inverse_ctx', '0.0009765625', '10', 'HalfEven'])])],
+     level_text=('PARTIAL. Verus proves the entry points: inverse() is inverse_with_context at the configured default context, zero and one are returned unchanged, the magnitude is passed '
+                 'down under the mode as seen from the positive side and the sign of x is copied, so that inverse(-x) under m equals -inverse(x) under the mirrored mode (lemma_inverse_mirror, '
+                 'after the fix: commit); a primitive 1 / x routes to inverse(). Accuracy and termination of the Newton iteration impl_inverse_uint_scale are NOT decided (no contract '
+                 'within reach expresses convergence from an f64 start value); a few inputs are replayed with an integer oracle'),
+     level_note=_NOTE_COMMON + ' A change inside the Newton loop is not seen by this check except through the replayed inputs.',
+     technique=_TECH + '; replay of concrete inputs with an integer oracle')
 
 prop('C15', units=['toint', 'conv', 'scale', 'core', 'pow10'], level='proof',
      level_text=('Verus proves that to_i64/to_i128/to_u64/to_u128 (on references and, through them, on values) return Some(trunc(i*10^-s)) '
